@@ -11,7 +11,7 @@ import re
 
 IMPORTS = 'From Tranp Require Import Model.Ladder Model.Classify.\nFrom TranpGen Require Import GenLadder.'
 IDS = ['a', 'b', 'c', 'x', 'y', 'foo', 'bar', 'n1', 'val', 'xs', 'd']
-TOK_RE = re.compile(r'\s*(not\s+in\b|is\s+not\b|<<|>>|==|!=|<=|>=|[-+*/%&|^~<>()]|[A-Za-z_]\w*)')
+TOK_RE = re.compile(r'\s*(not\s+in\b|is\s+not\b|<<|>>|==|!=|<=|>=|[-+*/%&|^~<>()]|[A-Za-z_]\w*|\d+)')
 WORD_OPS = {'or', 'and', 'not', 'in', 'is', 'not in', 'is not'}
 
 
@@ -33,6 +33,8 @@ def coq_tok(t):
         return '(TL str)'
     if t == ')':
         return '(TR str)'
+    if t.isdigit():
+        return '(TId str %d)' % (100 + int(t))
     if t in WORD_OPS or not (t[0].isalpha() or t[0] == '_'):
         return '(TOp str %s)' % coq_str(t)
     return '(TId str %d)' % IDS.index(t)
